@@ -120,6 +120,36 @@ def replay_group(item):
     return out
 
 
+def replay_meta_orders(item):
+    """The builtin META dictionary, where STRICT and STANDARD disagree (a META field the dictionary does not list): the same text is
+    validated under every profile in every order on the worker's long-lived tool - the verdict of a profile does not depend on which
+    profile was served before it, nor on the spelling (judged by SameVerdict of spec/Trace_Validity.tla through the group memo)."""
+    import itertools
+    from octave_mcp.core.emitter import emit
+    from octave_mcp.core.parser import parse_with_warnings
+    n0, gid, metas = item
+    base = {"fields": [], "policy": "NONE", "unknown": False, "inst": {"-": "ok"}}
+    vt = _common.tool("validate")
+    wt = _common.tool("write")
+    out = []
+    texts = []
+    for meta in metas:
+        body = ['TYPE::"TEST"', 'VERSION::"1.0"'] + meta
+        texts += ["===DOC===\nMETA:\n" + "".join("  %s\n" % b for b in body) + "\nA::1\n===END===\n",
+                  "===DOC===\nMETA:\n" + "".join("    %s\n" % b.replace("::", " :: ") for b in body) + "\nA :: 1\n"]
+    for text in texts:
+        plain = emit(parse_with_warnings(text)[0])
+        for order in itertools.permutations(PROFILES):
+            obs = []
+            for prof in order:
+                r = run_async(vt.execute(content=text, schema="META", profile=prof))
+                ve = r.get("validation_errors", [])
+                obs.append({"route": "octave_validate_meta%d" % (texts.index(text) // 2), "profile": prof, "status": str(r.get("validation_status")),
+                            "pairs": sorted({"%s@%s" % (e.get("code"), e.get("field")) for e in ve}), "readonly": r.get("canonical") == plain, "stable": True})
+            out.append({"gid": gid, "case": base, "kind": "profile order %s" % "/".join(order), "obs": obs, "text": text})
+    return out
+
+
 def run(ctx):
     try:
         states = {"ok", "ok2", "bad", "missing", "null", "ambig", "casefold", "numstr", "dup_bad_last", "numedge", "numedge_ok"}
@@ -139,6 +169,8 @@ def run(ctx):
                 groups[k] = [g[0]] + rnd.sample(g[1:], min(7, len(g) - 1))
         items = [(n, hashlib.sha256(k.encode()).hexdigest()[:16], g) for n, (k, g) in enumerate(sorted(groups.items()))]
         outs = engine.parallel_map(replay_group, items, chunk=4)
+        outs += engine.parallel_map(replay_meta_orders, [(len(items) + k, "meta-orders-%d" % k, m) for k, m in enumerate(
+            [[['OWNER::"me"']], [[]], [['STATUS::"ACTIVE"', 'EXTRA::[1,2]']]])], chunk=1)
     finally:
         c08._cleanup()
     recs = []
